@@ -1,3 +1,4 @@
+//go:build go1.8
 // +build go1.8
 
 // Verification overlay: replaces kernel/goruntime/bootstrap_go18+.go, which only declares (body-less, via
@@ -5,10 +6,10 @@
 // none of them is part of the code the C07 harnesses execute except mSysStatInc (a statistics counter).
 package goruntime
 
-func algInit()                          {}
-func modulesInit()                      {}
-func typeLinksInit()                    {}
-func itabsInit()                        {}
-func mallocInit()                       {}
-func mSysStatInc(s *uint64, n uintptr)  { *s += uint64(n) }
-func procResize(int32) uintptr          { return 0 }
+func algInit()                         {}
+func modulesInit()                     {}
+func typeLinksInit()                   {}
+func itabsInit()                       {}
+func mallocInit()                      {}
+func mSysStatInc(s *uint64, n uintptr) { *s += uint64(n) }
+func procResize(int32) uintptr         { return 0 }
